@@ -18,7 +18,7 @@ RULE = (
     "file order, value x factor (rel 1e-12), units attribute, constants once as group attrs with "
     "the enum label, header attrs present iff the field is non-blank; missing and unexpected "
     "leaves are discrepancies. Non-trivial: >= 2 lines."
-    " One case in four is judged on the tree returned by an open that also writes the index cache. Stage 'in-place-pairs': two products with the same file names at the same root, one after the other, both judged."
+    " One case in four is judged on the tree returned by an open that also writes the index cache. Stage 'in-place-pairs': two products with the same file names at the same root, one after the other, both judged. A fifth of the cases inject a transient I/O error (the 1st..4th read of an image file fails once with OSError during the open): the open may raise it, a returned tree is complete."
 )
 ASSUMPTIONS = [
     "layout tables for the image descriptor and both line records (frozen)",
@@ -58,6 +58,8 @@ def cases(draw):
         "create_cache": draw(st.sampled_from([False, False, False, True])),
         # ... and the tree read back through that cache is judged too
         "via_cache": draw(st.booleans()),
+        # the n-th read of the first image file fails once with OSError during the open (None: no fault)
+        "io_error": draw(st.sampled_from([None, None, None, None, None, 1, 2, 3, 4])),
         "policy": draw(st.sampled_from(["decoy", "decoy", "blank"])),
         "vseed": draw(st.integers(0, 2**32 - 1)),
     }
@@ -75,6 +77,8 @@ def classify(case):
         labels.append("blank-header")
     if case.get("create_cache"):
         labels.append("create_cache")
+    elif case.get("io_error"):
+        labels.append("transient-read-error")
     inst = case["instant"]
     if inst["doy"] in (60, 366) or inst["ms"] == 86_399_999:
         labels.append("calendar-boundary")
@@ -85,6 +89,20 @@ def run_case(case):
     spec = common.spec_from(case)
     files, info = product.build_product(spec)
     out = []
+    if case.get("io_error") and not case.get("create_cache") and harness.PAIR_INDEX is None:
+        # an open during which one read of an image file fails: it may raise that OSError, but a
+        # tree that is returned has every line of every image
+        with common.open_under_read_fault(files, info["names"]["sar_imagery"][0], case["io_error"], use_cache=False, records_per_chunk=case["rpc"]) as (tree, err, consumed):
+            if err is not None:
+                return common.judge_fault_error(err, "open_alos2 while a read of an image file fails")
+            flat, err = harness.guard(harness.flatten, tree)
+            if err is not None:
+                return [harness.disc("exception", "flatten", "loadable tree", harness.exc_text(err))]
+        for iinfo, gname in zip(info["images"], common.group_names(spec)):
+            for d in model.check_image_group(iinfo, gname, flat, harness.disc):
+                d.setdefault("context", {})["during"] = "an open in which a read of the image " + ("failed with OSError" if consumed else "was to fail (no such read happened)")
+                out.append(d)
+        return out
     with harness.Materialised(files, "memory") as prod:
         opts = {"use_cache": False, "records_per_chunk": case["rpc"]}
         if case.get("create_cache"):
